@@ -40,7 +40,7 @@ def exhaustive(tier):
 
 
 def plan(tier, seed):
-    per = 130 if tier == "quick" else 2400
+    per = 200 if tier == "quick" else 2800
     descs = [{"kind": "random", "n": per} for _ in range(14)]
     if tier == "quick":
         grid = list(itertools.product(range(0, 7), [1, 2, 3, 5], STRATEGIES, ["default", "none", "explicit"]))
